@@ -39,6 +39,29 @@ WEXPORT int64_t w_json_parse(const uint8_t* in, size_t n, int strict, uint64_t* 
   W_JSON_CATCH
 }
 
+// string entry point, then describe one element of the top-level container: list -> element idx, dict -> value of key.
+// *topsize = size of the container. W_NO_ELEM if the result is not a container / idx out of range / key absent.
+#define W_NO_ELEM (-30)
+WEXPORT int64_t w_json_parse_elem(const uint8_t* in, size_t n, int strict, size_t idx, const uint8_t* key, size_t keylen, uint64_t* topsize,
+    uint64_t* val, uint8_t* sout, size_t cap) {
+  try {
+    JSON j = JSON::parse(reinterpret_cast<const char*>(in), n, strict != 0);
+    if (j.is_list()) {
+      *topsize = j.size();
+      if (idx >= j.size()) return W_NO_ELEM;
+      return describe(j.at(idx), val, sout, cap);
+    }
+    if (j.is_dict()) {
+      *topsize = j.size();
+      std::string k(reinterpret_cast<const char*>(key), keylen);
+      if (!j.contains(k)) return W_NO_ELEM;
+      return describe(j.at(k), val, sout, cap);
+    }
+    return W_NO_ELEM;
+  }
+  W_JSON_CATCH
+}
+
 // reader entry point: *where = reader offset after the value
 WEXPORT int64_t w_json_parse_reader(const uint8_t* in, size_t n, int strict, uint64_t* val, uint8_t* sout, size_t cap, uint64_t* where) {
   try {
